@@ -242,7 +242,7 @@ class MibCompiler(object):
                 try:
                     fileInfo, fileData = source.getData(mibname)
 
-                    if (fileInfo.path, fileInfo.name) in parsedFiles:
+                    if fileInfo.path and (fileInfo.path, fileInfo.name) in parsedFiles:
                         # found under another name before (-MIB suffix ...)
                         debug.logger & debug.flagCompiler and debug.logger(
                             '%s has been read before' % fileInfo.path)
